@@ -69,6 +69,48 @@ func Index(
 						return err
 					}
 
+					// Skip over the rest of an end-of-archive marker and any record padding (zero blocks), so that
+					// the next header is found wherever it starts; i.e. GNU tar pads archives to a full record
+					eof := false
+					blk := make([]byte, config.MagneticTapeBlockSize)
+					for {
+						n, err := io.ReadFull(reader.Drive, blk)
+						if err != nil {
+							if err == io.EOF || err == io.ErrUnexpectedEOF {
+								eof = true
+
+								break
+							}
+
+							return err
+						}
+
+						zero := true
+						for _, b := range blk[:n] {
+							if b != 0 {
+								zero = false
+
+								break
+							}
+						}
+
+						if !zero {
+							if _, err := reader.Drive.Seek(-int64(n), io.SeekCurrent); err != nil {
+								return err
+							}
+
+							break
+						}
+
+						curr += int64(n)
+					}
+
+					if eof {
+						hdr = nil
+
+						break
+					}
+
 					nextTotalBlocks := math.Ceil(float64((curr)) / float64(config.MagneticTapeBlockSize))
 					record = int64(nextTotalBlocks) / int64(pipes.RecordSize)
 					block = int64(nextTotalBlocks) - (record * int64(pipes.RecordSize))
